@@ -133,9 +133,14 @@ def stage_sched(ctx, res):
 
 
 # ---------------------------------------------------------------------------------------------- stage B
+NON_ASCII_TEXTS = ['select "c\u00f4t\u00e9" from t; select 2', "select '\u00e4\u00f6\u00fc' as x; select \u00e9 from t\u00f4"]
+
+
 def gen_probe(rng, texts):
     t = rng.choice(texts)
     k = rng.random()
+    if k < 0.06:
+        return ['bsplit', rng.choice(NON_ASCII_TEXTS)]
     if k < 0.45:
         return ['parse', t]
     if k < 0.65:
@@ -163,8 +168,10 @@ def gen_history(rng, texts):
             h.append(['add_kw', rng.choice([0, 3, 8, 100, 101])])
         elif k < 0.91:
             h.append(['default_init'])
-        else:
+        elif k < 0.95:
             h.append(['get_instance'])
+        else:
+            h.append(['enc_call', rng.choice(['latin-1', 'utf-16', 'cp1252']), rng.choice(NON_ASCII_TEXTS)])
     if not impl_hist.ends_default(h):
         h.append(['default_init'])
         for _ in range(rng.choice([0, 0, 1, 2])):
